@@ -159,6 +159,7 @@ Record bound_batch (s s' : sess) (B : list positive) : Prop := {
   bb_done : forall i, i ∈ B -> exists t, heap s' !! i = Some t /\ t_status t = Binding;
   bb_heap : forall i t, heap s !! i = Some t ->
      exists t', heap s' !! i = Some t' /\ same_meta t t' /\ (t' = t \/ (t_status t' = Binding /\ i ∈ B));
+  bb_dom : forall i, heap s !! i = None -> heap s' !! i = None;
 }.
 
 Lemma bound_batch_refl s : gang_inv s -> bound_batch s s [].
@@ -174,7 +175,7 @@ Lemma bound_batch_step s s1 B i p :
   bound_batch s s1 B -> heap s1 !! i = Some p -> is_Some (jobs s1 !! t_job p) ->
   exists s2 p2, bind_task s1 p = (true, s2, p2) /\ bound_batch s s2 (B ++ [i]).
 Proof.
-  intros [Hinv Hjobs Href Hst (nb & Hnb & HnbB) Hdone Hheap] Hp Hsome.
+  intros [Hinv Hjobs Href Hst (nb & Hnb & HnbB) Hdone Hheap Hdom] Hp Hsome.
   assert (Hid : t_id p = i) by (destruct Hinv as (Ha & _); by apply Ha).
   rewrite <- Hid in Hp.
   destruct (bind_task_spec s1 p Hinv Hp Hsome) as (s2 & p2 & E & Ht & Hb & Hs2 & Hb2).
@@ -198,6 +199,9 @@ Proof.
       right. split; [done|]. apply elem_of_app. right. by apply elem_of_list_singleton.
     + exists t1. rewrite H2, lookup_insert_ne by done. split; [done|]. split; [done|].
       destruct Hc1 as [?|[? ?]]; [by left|right]. split; [done|]. apply elem_of_app. by left.
+  - intros k Hk. destruct (decide (k = i)) as [->|Hne].
+    + specialize (Hdom _ Hk). congruence.
+    + rewrite H2, lookup_insert_ne by done. by apply Hdom.
 Qed.
 
 (* the tasks a bound_batch from s may bind: present, with an existing job *)
@@ -284,6 +288,7 @@ Record undone_batch (s s' : sess) (B : list positive) : Prop := {
   ub_heap : forall i t, heap s !! i = Some t ->
      exists t', heap s' !! i = Some t' /\ same_meta t t' /\
        (t_status t' = t_status t \/ (t_status t' = Pending /\ i ∈ B));
+  ub_dom : forall i, heap s !! i = None -> heap s' !! i = None;
 }.
 
 Lemma undone_batch_refl s : gang_inv s -> undone_batch s s [].
@@ -308,7 +313,7 @@ Proof.
         { rewrite <- Hid in Ep.
           destruct (unallocate_spec s1 p (ub_inv _ _ _ Hub) Ep) as (p' & Ht & Hst & _ & Hs & Hb).
           rewrite Hid in *. destruct Ht as [H1 H2 H3 H4 H5 H6].
-          destruct Hub as [Hinv Hjobs Href Hstm Hbinds Hheap]. split.
+          destruct Hub as [Hinv Hjobs Href Hstm Hbinds Hheap Hdom]. split.
           - done.
           - by eapply jobs_static_trans.
           - congruence.
@@ -324,9 +329,12 @@ Proof.
                 -- left. congruence.
                 -- right. split; [congruence|]. apply elem_of_app. by left.
             + exists t1. rewrite H2, lookup_insert_ne by done. split; [done|]. split; [done|].
-              destruct Hc1 as [?|[? ?]]; [by left|right]. split; [done|]. apply elem_of_app. by left. }
+              destruct Hc1 as [?|[? ?]]; [by left|right]. split; [done|]. apply elem_of_app. by left.
+          - intros k Hk'. destruct (decide (k = op_task o)) as [->|Hne].
+            + specialize (Hdom _ Hk'). congruence.
+            + rewrite H2, lookup_insert_ne by done. by apply Hdom. }
         destruct (op_kind o); [done|exact Hun|exact Hun].
-      - destruct Hub as [Hinv Hjobs Href Hstm Hbinds Hheap]. split; try done.
+      - destruct Hub as [Hinv Hjobs Href Hstm Hbinds Hheap Hdom]. split; try done.
         intros k t Hkt. destruct (Hheap k t Hkt) as (t1 & E1 & Hm1 & Hc1).
         exists t1. split; [done|]. split; [done|].
         destruct Hc1 as [?|[? ?]]; [by left|right]. split; [done|]. apply elem_of_app. by left. }
